@@ -844,3 +844,52 @@ Proof.
     by (cbn [request_ok]; split; [discriminate|]; split; [exact V4|exact F4]).
   exact (Forall_cons _ R1 (Forall_cons _ R2 (Forall_cons _ R3 (Forall_cons _ R4 (Forall_cons _ R2 (Forall_nil _)))))).
 Qed.
+
+(* ---------------------------------------------------------------- an inbound QoS 0 message in between: delivered, still idle *)
+Theorem inbound_qos0_idle : forall w h rl body t topic r dp props payload,
+  Hc w ->
+  ob_ctl (s_ob (w_sess w)) = [] -> ob_rel (s_ob (w_sess w)) = [] -> ob_ret (s_ob (w_sess w)) = [] ->
+  rt_ka_ms (s_rt (w_sess w)) = 0 -> rt_next_ping (s_rt (w_sess w)) = None -> rt_ping_timeout (s_rt (w_sess w)) = None ->
+  w_broker w = 1 -> w_txbuf w = [] -> w_last_arrival w <= w_now w ->
+  rdata (rd w) = [] -> rplen (rd w) = None -> 6 <= rcap (rd w) ->
+  varint_write (lenN body) = Some rl ->
+  let pkt := h :: rl ++ body in
+  w_inq w = [(t, pkt)] -> t <= w_now w -> lenN pkt <= rcap (rd w) -> lenN pkt <= 29000 ->
+  from_buffer pkt = Some (RPublish topic None Q0 r dp props payload) ->
+  exists w', op_poll FUEL w = (w', ODone (Some (RPublish topic None Q0 r dp props payload))) /\
+    w_wire w' = w_wire w /\ w_now w' = w_now w /\ s_rt (w_sess w') = s_rt (w_sess w) /\ s_ob (w_sess w') = s_ob (w_sess w) /\
+    Idle w'.
+Proof.
+  intros w h rl body t topic r dp props payload Hcw Ec El Er Hka Hnp Hpt Hbr Htx Hla Hrd Hrp Hcap Hrl pkt Hi Ht Hfit H29 Hdec.
+  pose proof Hcw as [Hs [Hl [I [Hmps [_ [HB HF]]]]]].
+  destruct FUEL_big as [f Hf]. assert (Hfu : N.of_nat FUEL = 30000) by reflexivity.
+  unfold op_poll. rewrite Hf.
+  assert (Hto : ping_timed_out (w_sess w) (w_now w) = false) by (unfold ping_timed_out; rewrite Hpt; reflexivity).
+  assert (Hq : PQ w) by (split; [unfold should_queue_pingreq; rewrite Hpt, Hnp; reflexivity|apply calm_nil; exact Hs]).
+  assert (Hn : next_step (s_ob (w_sess w)) = None) by (apply quiescent_no_step; assumption).
+  destruct (wait_reads_arrived_packet_gen (S (S (S (S f)))) w h rl body t Hrl) as [w3 [E3 [D3 [P3 [K3 [S3 [Q3 [C3 [N3 [L3 [W3 B3]]]]]]]]]]];
+    try assumption; fold pkt; try (unfold BIG; lia); try (rewrite Hf in Hfu; lia).
+  fold pkt in D3, P3. rewrite E3. clear E3.
+  rewrite wait_unfold. unfold drive_packet. rewrite L3. cbn [negb]. rewrite drive_loop_unfold.
+  assert (Ha3 : packet_available (rd w3) = true).
+  { unfold packet_available. rewrite P3. unfold read_bytes. rewrite D3. apply N.leb_le. lia. }
+  unfold process_received at 1. fold (rd w3). rewrite Ha3. cbn [negb]. unfold take_packet. rewrite P3, D3.
+  rewrite (takeN_all pkt (lenN pkt)) by lia. rewrite Hdec.
+  assert (Es3 : set_reader (w_sess w3) (reader_reset (rd w3)) = set_reader (w_sess w) (reader_reset (rd w))).
+  { rewrite S3. unfold reader_reset. rewrite K3. destruct (w_sess w); reflexivity. }
+  rewrite Es3. cbn [handle_packet].
+  set (s3 := set_reader (w_sess w) (reader_reset (rd w))).
+  eexists. split; [reflexivity|].
+  cbn [w_wire w_now w_sess upd_drained upd_envok upd_sess].
+  split; [exact W3|]. split; [exact N3|]. split; [reflexivity|]. split; [reflexivity|].
+  unfold bt in B3. injection B3 as Bb Bt Bl.
+  assert (I3 : WInv s3) by (eapply WInv_step; [apply SS_reader|exact I]).
+  unfold Idle, Hc, rd. cbn [w_sess w_script w_live w_now w_broker w_txbuf w_inq w_last_arrival upd_drained upd_envok upd_sess].
+  split.
+  { split; [exact C3|]. split; [exact L3|]. split; [exact I3|]. split; [exact Hmps|].
+    split; [intros d E; change (s_rt s3) with (s_rt (w_sess w)) in E; rewrite Hpt in E; discriminate E|]. split; [exact HB|exact HF]. }
+  split; [exact Ec|]. split; [exact El|]. split; [exact Er|]. split; [exact Hka|]. split; [exact Hnp|]. split; [exact Hpt|].
+  split; [rewrite Bb; exact Hbr|]. split; [rewrite Bt; exact Htx|]. split; [exact Q3|].
+  split; [rewrite Bl, N3; exact Hla|].
+  cbn [s3 set_reader s_reader reader_reset rdata rplen rcap]. split; [reflexivity|]. split; [reflexivity|exact Hcap].
+Qed.
